@@ -190,7 +190,7 @@ func main() {
 		newOp := "new a " + strings.Join(vals, " ")
 		do(newOp)
 		do("new b " + strings.Join(vals, " ")) // shadow replica: applies single increments only
-		kind := R.Intn(4)
+		kind := R.Intn(5)
 		switch kind {
 		case 0: // ---------------------------------------------- fairness window from genesis
 			if total <= 80 {
@@ -241,6 +241,49 @@ func main() {
 						do("proposer a")
 						do("wirereload b")
 						do("proposer b")
+					}
+				}
+			}
+		case 2: // ---------------------------------------------- a power change, then a skip of MORE rounds than the new total
+			// (accums carry the history of the old distribution: the rotation is not periodic in the new total)
+			for i := R.Range(0, 7); i > 0; i-- {
+				do("incr a 1")
+				do("incr b 1")
+			}
+			changed := false
+			for idx, pw := range member {
+				if pw > 1 || n > 1 {
+					addr := vh.Hex(pool[idx].Address())
+					var op string
+					switch {
+					case pw > 1 && R.Chance(70):
+						op = fmt.Sprintf("update %%s %s:1:0", addr) // a heavy validator becomes light
+						total += 1 - pw
+					case n > 1:
+						op = fmt.Sprintf("remove %%s %s", addr)
+						total -= pw
+					default:
+						continue
+					}
+					do(fmt.Sprintf(op, "a"))
+					do(fmt.Sprintf(op, "b"))
+					changed = true
+					break
+				}
+			}
+			if changed && total > 0 && total <= 40 {
+				for rep := 0; rep < 2; rep++ {
+					k := int(total) + R.Range(1, 2*int(total)+3)
+					ra := do(fmt.Sprintf("incr a %d", k))
+					rb := ""
+					for j := 0; j < k; j++ {
+						rb = do("incr b 1")
+					}
+					pa, pb := do("proposer a"), do("proposer b")
+					r.Count("skip-beyond-total-after-change")
+					if ra != rb || pa != pb {
+						fail("batched-increment-differs-from-single-increments", fmt.Sprintf("after a power change IncrementAccum(%d) (total power %d) and %d x IncrementAccum(1) give different accums/proposer", k, total, k), ra+" prop="+pa, rb+" prop="+pb)
+						break
 					}
 				}
 			}
